@@ -14,6 +14,8 @@ var All = map[string]func() *corr.Engine{
 	"C07": C07,
 	"C09": C09,
 	"C13": C13,
+	"C10": C10,
+	"C11": C11,
 	"C05": C05,
 	"C06": C06,
 }
